@@ -30,6 +30,55 @@ CLAIMS = {
              "pandas' (pd.Int64Index(dtype=int)) -- modelled, checked by the bounded tier; Period/Datetime branches not verified",
         technique="contract-based deductive verification: AST->VC generation (pyvc) + z3/cvc5; class invariant + frame + lemmas",
         design="6/C02"),
+    "C05": dict(
+        category="proof",
+        text="_sliding_window_transform is verified for all series lengths, window lengths, horizons (gapped or not), numbers of "
+             "exogenous columns and both scitypes with a loop invariant over the lag planes (exact value of every cell of Xt / yt); "
+             "fit and predict of the four strategies are verified modularly against it with the wrapped regressor as an abstract "
+             "object (ghost trace of fit/predict calls, predict = uninterpreted function): rows/targets passed to fit, last-window "
+             "layout at predict, feedback of earlier predictions (recursive: loop invariant, unbounded; direct/dirrec/multioutput: "
+             "1..3 horizon steps with symbolic step values). Cutoff may lie anywhere inside the remembered series.",
+        note="trusted: pyvc + numpy models (zeros, slicing/assignment, C-order reshape, column_stack, concatenate), Series.loc on a "
+             "contiguous integer index, sklearn.clone as 'fresh unfitted object', numpy<1.20 semantics of y_pred[i] = array([v]); "
+             "no-NaN window assumed; direct/dirrec/multioutput loops over estimators verified for 1..3 steps (bound on the number of "
+             "steps only); bounded native tier with a recording stub regressor reported separately",
+        technique="contract-based deductive verification: AST->VC generation (pyvc) + z3/cvc5; loop invariants over 3-d arrays, abstract callees with ghost trace",
+        design="6/C05"),
+    "C07": dict(
+        category="proof",
+        text="evaluate() is verified with the forecaster and the metric as abstract objects and the splitter entering through its "
+             "C01 contract (sliding, expanding, single-window; symbolic parameters): the fold loop is cut by an invariant and the ghost "
+             "events of a symbolic fold k must be exactly fit-or-update(y.iloc[train_k], X_train_k[, fh=test labels]), predict(fh_k, "
+             "X_test_k), metric(y_true=y.iloc[test_k], y_pred=the forecast), one appended row with that score, len(train_k) and the "
+             "cutoff; no label at or after the first test label reaches the forecaster before predict; one row per split.",
+        note="trusted: pyvc + pandas models (iloc/loc on a contiguous integer index, DataFrame as row accumulator), abstract forecaster "
+             "interface (fit/update move the cutoff to the end of their data); fit_time/pred_time opaque; bounded native tier (real "
+             "forecasters, recording metric) reported separately",
+        technique="contract-based deductive verification: AST->VC generation (pyvc) + z3/cvc5; loop invariant + per-iteration ghost-event schema",
+        design="6/C07"),
+    "C09": dict(
+        category="proof",
+        text="fit/_predict/update of TransformedTargetForecaster, EnsembleForecaster, MultiplexForecaster and StackingForecaster.fit "
+             "are verified with members, transformers and meta-regressor as abstract objects: which clone is fitted/updated with which "
+             "data (provenance by object identity through the ghost trace), order of inverse transforms, aggregate over member "
+             "forecasts in member order, held-out window of stacking (members' first fit sees y without its last max(fh) points).",
+        note="compositions of 1..3 members / 0..3 transformers (bound on the NUMBER of components only; each component is universally "
+             "quantified); trusted: sklearn.clone / get_params / joblib order-preserving Parallel (assumed external contracts), "
+             "pandas concat / row-wise aggregates as opaque provenance; numeric equality with manual composition is bounded-tier only",
+        technique="contract-based deductive verification: AST->VC generation (pyvc) + z3; abstract components with ghost trace and data provenance",
+        design="6/C09"),
+    "C20": dict(
+        category="proof",
+        text="Two-sided contracts (raises E iff malformed, else returns its argument) are proved for the validation helpers is_int, "
+             "check_window_length, check_step_length, check_sp, check_cutoffs, check_fh, check_time_index, check_series, check_y, "
+             "check_equal_time_index, evaluate's _check_strategy, ForecastingHorizon construction, and -- through the C01 contracts -- "
+             "the rejection conditions of every splitter entry point (window/initial window/horizon that does not fit, clashing options), "
+             "temporal_train_test_split(fh + sizes), MultiplexForecaster with an unknown selection.",
+        note="input space is split into type cases (int/bool/float/None/str/list; Series/DataFrame/ndarray/list/None with sorted, unsorted, "
+             "empty, unsupported index) inside which values are symbolic; forecaster entry points (fit/predict/update of concrete "
+             "forecasters) are covered by the bounded native tier only",
+        technique="contract-based deductive verification: AST->VC generation (pyvc) + z3/cvc5; raises-iff clauses per type case",
+        design="6/C20"),
 }
 
 
